@@ -25,8 +25,8 @@ CONSTANTS X, Y, SP, COMMA, QT, TAB, BAR, NL, DASH, ZED,     \* ZED: an exotic ch
           NSCount,       \* VW: number of namespaces in the header
           StripWholeLine \* named deviation (tsv): strip() the whole line instead of its terminator
 
-VARIABLES pc, cells, vw, wide
-vars == <<pc, cells, vw, wide>>
+VARIABLES pc, cells, vw, wide, nsorder
+vars == <<pc, cells, vw, wide, nsorder>>
 
 \* ---------------------------------------------------------------- generic string operations
 Join(parts, sep) == IF parts = <<>> THEN <<>>
@@ -88,7 +88,7 @@ VWLabels == {<<X>>, <<DASH, X>>}                                      \* "1", "-
 Gap == IF wide THEN <<SP, SP>> ELSE <<SP>>
 RenderNs(k, toks) == <<BAR>> \o NsId(k) \o FoldLeft(LAMBDA acc, t : acc \o Gap \o t, <<>>, toks) \o (IF wide THEN <<SP>> ELSE <<>>)
 RenderVW(v) == v.label \o <<SP>>
-               \o FoldLeft(LAMBDA acc, k : IF ~v.ns[k].p THEN acc ELSE acc \o RenderNs(k, v.ns[k].t), <<>>, [k \in 1..NSCount |-> k])
+               \o FoldLeft(LAMBDA acc, k : IF ~v.ns[k].p THEN acc ELSE acc \o RenderNs(k, v.ns[k].t), <<>>, nsorder)     \* namespaces may appear in any order on the line
                \o <<NL>>
 \* parse_ob_line_vw: Missing stands for None (0 is not a character code)
 Missing == <<0>>
@@ -111,16 +111,17 @@ ExpectedVW(v) == [k \in 1..NSCount |->
 
 \* ---------------------------------------------------------------- the enumeration machine
 CellSet == UNION {[1..n -> CellChars] : n \in 0..MaxCellLen}
-Init == pc = "build" /\ cells = <<>> /\ vw = <<>> /\ wide \in (IF Format = "vw" THEN BOOLEAN ELSE {FALSE})
+Init == /\ pc = "build" /\ cells = <<>> /\ vw = <<>> /\ wide \in (IF Format = "vw" THEN BOOLEAN ELSE {FALSE})
+        /\ nsorder \in (IF Format = "vw" THEN {f \in [1..NSCount -> 1..NSCount] : \A i, j \in 1..NSCount : i # j => f[i] # f[j]} ELSE {<<>>})
 AddCell == /\ pc = "build" /\ Format \in {"csv", "tsv"} /\ Len(cells) < MaxCells
            /\ \E c \in CellSet : cells' = Append(cells, c)
-           /\ UNCHANGED <<pc, vw, wide>>
+           /\ UNCHANGED <<pc, vw, wide, nsorder>>
 Finish == /\ pc = "build" /\ Format \in {"csv", "tsv"} /\ cells # <<>> /\ pc' = "row"
-          /\ UNCHANGED <<cells, vw, wide>>
+          /\ UNCHANGED <<cells, vw, wide, nsorder>>
 NsChoices == {[p |-> FALSE, t |-> <<>>]} \cup {[p |-> TRUE, t |-> ts] : ts \in UNION {[1..n -> Tokens] : n \in 0..2}}
 ChooseVW == /\ pc = "build" /\ Format = "vw"
             /\ \E lab \in VWLabels : \E ns \in [1..NSCount -> NsChoices] : vw' = [label |-> lab, ns |-> ns]
-            /\ pc' = "row" /\ UNCHANGED <<cells, wide>>
+            /\ pc' = "row" /\ UNCHANGED <<cells, wide, nsorder>>
 Ready == pc = "row"
 \* ---------------------------------------------------------------- namespace map (vw_namespace_map.csv)
 \* entry kinds: what one line of the map looks like; the k-th line declares id k / feature k
@@ -130,7 +131,7 @@ ExpectedMap(es) == {k \in DOMAIN es : Declares(es[k])}                          
 ExpectedFloats(es) == {k \in DOMAIN es : es[k] = "three_f32"}
 ChooseMap == /\ pc = "build" /\ Format = "nsmap"
              /\ \E n \in 1..MaxCells : \E es \in [1..n -> NsKinds] : cells' = es
-             /\ pc' = "row" /\ UNCHANGED <<vw, wide>>
+             /\ pc' = "row" /\ UNCHANGED <<vw, wide, nsorder>>
 EmitMap == (Ready /\ Format = "nsmap") => PrintT(<<"NSMAP", cells, ExpectedMap(cells), ExpectedFloats(cells)>>)
 
 Next == AddCell \/ Finish \/ ChooseVW \/ ChooseMap
